@@ -117,7 +117,9 @@ def run(tier, seed, focus):
         prop, bad, hist = one_history(cfg, random.Random(s2), 40, focus)
         evals += len(hist)
         kinds.add(cfg[:5])
-        if bad and prop == focus and len(viol) < 5:
+        # (C10 at the level of a cache set: hit/miss disagreeing with the reference LRU / tree-PLRU cache means a victim or a
+        #  recency update went wrong -- the accounting mismatch IS the wrong replacement decision)
+        if bad and (prop == focus or (focus == "C10" and prop == "C09")) and len(viol) < 5:
             viol.append({"key": "%s:ops:%s" % (focus, bad[:70]), "what": bad, "config": list(cfg), "seed2": s2, "history": [list(h) for h in hist], "sub": "cacheops"})
     return evals, len(kinds), viol
 
